@@ -540,6 +540,26 @@ pub fn run(opts: &Opts) -> i32 {
             let mut out = Out::new(&dir, &format!("s{sh}"));
             let mut rng = Rng::new(seed.wrapping_mul(104729).wrapping_add(sh));
             let mut kinds = std::collections::BTreeMap::<String, u64>::new();
+            if sh == 0 {
+                // files that are not block lists at all (the model starts at whole blocks): short and
+                // odd-sized non-empty files that are no FeOx device must be refused and left as they are
+                for len in [1usize, 17, 100, 4095, 4096, 4097, 8191, 65_535, 65_536, 69_632] {
+                    for fill in [0x78u8, 0x00] {
+                        let path = format!("{keep}/short_{len}_{fill}.img");
+                        let mut data = vec![fill; len];
+                        data[len - 1] = 0x79; // never all zero: an all-zero file is a fresh device
+                        std::fs::write(&path, &data).unwrap();
+                        let (_now, _recsize, line) = probe_image(&path, &format!("{path}.probe"), false, false);
+                        let verdict = if line.starts_with("ok") || line.starts_with("fresh") {
+                            format!("FAIL a-{len}-byte-file-that-is-no-feox-device-was-opened-as-a-store: {}", line.split(' ').take(3).collect::<Vec<_>>().join("_"))
+                        } else {
+                            open_verdict(&line)
+                        };
+                        out.emit3(&format!("note short-foreign-file len={len} fill={fill} {}", line.split(' ').take(3).collect::<Vec<_>>().join("_")), "note", &verdict);
+                        let _ = std::fs::remove_file(&path);
+                    }
+                }
+            }
             for b in 0..bases {
                 let twice = twice_opt;
                 let base = format!("{keep}/b{sh}_{b}.img");
